@@ -26,6 +26,9 @@ pub struct Vertex {
     /// the inverse of the determinant of the (unit) normals of its three planes. The location
     /// of a vertex on nearly parallel planes is ill-conditioned.
     pub(super) error_factor: f64,
+    /// Upper bound on the displacement of this vertex when the generators are snapped onto
+    /// the integer grid used by the exact predicate.
+    pub(super) snap_error: f64,
 }
 
 impl Vertex {
@@ -36,6 +39,7 @@ impl Vertex {
         half_spaces: &[HalfSpace],
         gen_loc: DVec3,
         dimensionality: Dimensionality,
+        grid_spacing: f64,
     ) -> Self {
         let loc =
             intersect_planes(&half_spaces[i].plane, &half_spaces[j].plane, &half_spaces[k].plane);
@@ -50,11 +54,17 @@ impl Vertex {
             half_spaces[k].plane.n,
         )
         .determinant();
+        let error_factor = (1. / det.abs()).max(1.);
+        let snap_error = error_factor
+            * (half_spaces[i].snap_error(loc, gen_loc, grid_spacing)
+                + half_spaces[j].snap_error(loc, gen_loc, grid_spacing)
+                + half_spaces[k].snap_error(loc, gen_loc, grid_spacing));
         Vertex {
             loc,
             dual: [i, j, k],
             radius2: gen_loc.distance_squared(d_loc),
-            error_factor: (1. / det.abs()).max(1.),
+            error_factor,
+            snap_error,
         }
     }
 
@@ -310,15 +320,16 @@ impl ConvexCell<WithoutFaces> {
         let clipping_planes = simulation_boundary.clipping_planes.clone();
 
         let dimensionality = simulation_boundary.dimensionality;
+        let h = simulation_boundary.grid_spacing;
         let vertices = vec![
-            Vertex::from_dual(2, 5, 0, &clipping_planes, loc, dimensionality),
-            Vertex::from_dual(5, 3, 0, &clipping_planes, loc, dimensionality),
-            Vertex::from_dual(1, 5, 2, &clipping_planes, loc, dimensionality),
-            Vertex::from_dual(5, 1, 3, &clipping_planes, loc, dimensionality),
-            Vertex::from_dual(4, 2, 0, &clipping_planes, loc, dimensionality),
-            Vertex::from_dual(4, 0, 3, &clipping_planes, loc, dimensionality),
-            Vertex::from_dual(2, 4, 1, &clipping_planes, loc, dimensionality),
-            Vertex::from_dual(4, 3, 1, &clipping_planes, loc, dimensionality),
+            Vertex::from_dual(2, 5, 0, &clipping_planes, loc, dimensionality, h),
+            Vertex::from_dual(5, 3, 0, &clipping_planes, loc, dimensionality, h),
+            Vertex::from_dual(1, 5, 2, &clipping_planes, loc, dimensionality, h),
+            Vertex::from_dual(5, 1, 3, &clipping_planes, loc, dimensionality, h),
+            Vertex::from_dual(4, 2, 0, &clipping_planes, loc, dimensionality, h),
+            Vertex::from_dual(4, 0, 3, &clipping_planes, loc, dimensionality, h),
+            Vertex::from_dual(2, 4, 1, &clipping_planes, loc, dimensionality, h),
+            Vertex::from_dual(4, 3, 1, &clipping_planes, loc, dimensionality, h),
         ];
 
         let mut cell = ConvexCell::new(loc, idx, clipping_planes, vertices, dimensionality);
@@ -381,8 +392,10 @@ impl ConvexCell<WithoutFaces> {
         let mut num_v = self.vertices.len();
         let mut num_r = 0;
         while i < num_v {
-            let mut clip =
-                p.clip_with_error_factor(self.vertices[i].loc, self.vertices[i].error_factor);
+            let vertex = &self.vertices[i];
+            let snap_error = vertex.snap_error
+                + p.snap_error(vertex.loc, self.loc, simulation_boundary.grid_spacing);
+            let mut clip = p.clip_with_error_factor(vertex.loc, vertex.error_factor, snap_error);
             if clip == 0. {
                 // Do the equivalent in-sphere test to determine whether a vertex is clipped
                 let dual = self.vertices[i].dual;
@@ -441,6 +454,7 @@ impl ConvexCell<WithoutFaces> {
                     &self.clipping_planes,
                     self.loc,
                     simulation_boundary.dimensionality,
+                    simulation_boundary.grid_spacing,
                 ));
                 cur = next;
             }
@@ -778,6 +792,7 @@ impl From<ConvexCellAlternative> for ConvexCell<WithoutFaces> {
                     &clipping_planes,
                     convex_cell_alt.loc,
                     Dimensionality::ThreeD,
+                    0.,
                 )
             })
             .collect::<Vec<_>>();
